@@ -690,6 +690,55 @@ def _resp_term(v):
     raise Problem('the function returns something that is not a response')
 
 
+# module-level bindings the primitive table relies on: (file, local name) -> (module, original name)
+BINDINGS = {
+    ('pyramid/tweens.py', 'HTTPNotFound'): ('pyramid.httpexceptions', 'HTTPNotFound'),
+    ('pyramid/tweens.py', 'reraise'): ('pyramid.util', 'reraise'),
+    ('pyramid/tweens.py', 'sys'): (None, 'sys'),
+    ('pyramid/view.py', 'HTTPNotFound'): ('pyramid.httpexceptions', 'HTTPNotFound'),
+    ('pyramid/view.py', 'reraise_'): ('pyramid.util', 'reraise'),
+    ('pyramid/view.py', 'hide_attrs'): ('pyramid.util', 'hide_attrs'),
+    ('pyramid/view.py', 'providedBy'): ('zope.interface', 'providedBy'),
+    ('pyramid/view.py', 'manager'): ('pyramid.threadlocal', 'manager'),
+    ('pyramid/view.py', 'get_current_registry'): ('pyramid.threadlocal', 'get_current_registry'),
+    ('pyramid/view.py', 'IExceptionViewClassifier'): ('pyramid.interfaces', 'IExceptionViewClassifier'),
+    ('pyramid/view.py', 'IRequest'): ('pyramid.interfaces', 'IRequest'),
+    ('pyramid/view.py', 'sys'): (None, 'sys'),
+    ('pyramid/util.py', 'contextmanager'): ('contextlib', 'contextmanager'),
+    ('pyramid/config/views.py', 'IException'): ('pyramid.interfaces', 'IException'),
+    ('pyramid/config/views.py', 'IInterface'): ('zope.interface.interfaces', 'IInterface'),
+    ('pyramid/config/views.py', 'inspect'): (None, 'inspect'),
+}
+
+
+def check_bindings(trees):
+    """each name of the table is bound exactly once at module level, by the expected import; the names the table
+    treats as module constants (_marker) by the expected statement"""
+    for (rel, local), (mod, orig) in BINDINGS.items():
+        tree = trees[rel]
+        found = []
+        for st in tree.body:
+            if isinstance(st, ast.ImportFrom):
+                for a in st.names:
+                    if (a.asname or a.name) == local:
+                        found.append((st.module, a.name))
+            elif isinstance(st, ast.Import):
+                for a in st.names:
+                    if (a.asname or a.name) == local:
+                        found.append((None, a.name))
+            elif isinstance(st, (ast.Assign, ast.FunctionDef, ast.ClassDef)):
+                names = [t.id for t in getattr(st, 'targets', []) if isinstance(t, ast.Name)] + \
+                    ([st.name] if not isinstance(st, ast.Assign) else [])
+                if local in names:
+                    found.append(('<rebound>', local))
+        if found != [(mod, orig)]:
+            raise Problem('%s: the name %s is bound by %s, expected import of %s from %s' % (rel, local, found, orig, mod))
+    mk = [st for st in trees['pyramid/util.py'].body if isinstance(st, ast.Assign)
+          and any(isinstance(t, ast.Name) and t.id == '_marker' for t in st.targets)]
+    if len(mk) != 1 or u(mk[0].value) != 'object()':
+        raise Problem('pyramid/util.py: _marker is no longer a fresh object()')
+
+
 def translate(src):
     """-> {'gen_hide_attrs': text, ...} (Coq definitions, in dependency order)"""
     out = {}
@@ -699,6 +748,8 @@ def translate(src):
             return ast.parse(f.read())
     util, view, tweens = parse('pyramid/util.py'), parse('pyramid/view.py'), parse('pyramid/tweens.py')
     httpexc, cviews = parse('pyramid/httpexceptions.py'), parse('pyramid/config/views.py')
+    check_bindings({'pyramid/util.py': util, 'pyramid/view.py': view, 'pyramid/tweens.py': tweens,
+                    'pyramid/config/views.py': cviews})
 
     # hide_attrs
     fn = _find(util, 'hide_attrs')
@@ -762,9 +813,10 @@ def translate(src):
     ps, va = _params(fn)
     if fps != ['handler', 'registry'] or ps != ['request'] or va:
         raise Problem('excview_tween: signature')
-    last = fac.body[-1]
-    if not (isinstance(last, ast.Return) and u(last.value) == 'excview_tween'):
-        raise Problem('excview_tween_factory does not return excview_tween')
+    fbody = [x for x in fac.body if not (isinstance(x, ast.Expr) and isinstance(x.value, ast.Constant))]
+    if not (len(fbody) == 2 and fbody[0] is fn and isinstance(fbody[1], ast.Return) and u(fbody[1].value) == 'excview_tween'
+            and not fac.decorator_list and not fn.decorator_list):
+        raise Problem('excview_tween_factory is no longer "def excview_tween ..; return excview_tween"')
     tr = Tr('excview_tween', 'outcome', {})
     env = {'request': Val('req', who='target'), '$st': 'st'}
     out['gen_excview_tween'] = ('Definition gen_excview_tween (P : params) (W : world) (ri : rinfo) (site : N) '
